@@ -225,6 +225,7 @@ def run(chk):
                           'protocol %d, %d server packets, threshold %s, %s arrival: %s differ%s' % (pv, len(h), thr, chunking, diff, detail or ': got %r, expected %r' % (obs.get(k), exp[k])))
     write_fault(chk)
     shutdown_fault(chk)
+    two_connections(chk)
     chk.sample('play', {'proto': runs[0][0], 'history': repr(runs[0][1])[:200]}, k=1)
     chk.assumptions += ['the networking thread is run synchronously by the simulated transport; the server closes / stays idle after its script',
                         'packet ids of the server frames are looked up through pyCraft\'s tables (checked by C06/C07)']
@@ -286,6 +287,48 @@ def write_fault(chk):
                     chk.violation('write-fault', 'write-fault:%d:%s:%s' % (pv, type(fault).__name__, fault.errno), {'case': case, 'expected': exp, 'observed': obs},
                                   'protocol %d: the server sent its disconnect packet and closed, the pending keep-alive answer failed with %s: %s is %r (expected %r)' % (
                                       pv, case['write_error'], k, obs[k], exp[k]))
+
+
+def two_connections(chk):
+    """Two Connection objects alive in one process do not share session state: A is in play with compression announced by its
+    server; B connects to another server (no compression) and logs in; what A writes afterwards is still in A's framing, and
+    B's is in B's."""
+    from minecraft.networking.connection import Connection
+    from minecraft.networking.packets import serverbound as sb
+    for pv in (47, 340, 757):
+        ids = proto.Ids(pv)
+        for thr_a, thr_b in ((64, None), (None, 64), (0, 256)):
+            def script(thr):
+                pre = [proto.frame(ids.set_compression, proto.varint(thr))] if thr is not None else []
+                return b''.join(pre) + proto.frame(ids.login_success, ids.b_login_success(), thr) + proto.frame(ids.keep_alive, ids.b_keep_alive(9), thr)
+            net = sim.Net([sim.Server([script(thr_a)], end='idle'), sim.Server([script(thr_b)], end='idle')]).install()
+            try:
+                a = Connection('localhost', 25565, username='user', allowed_versions={pv})
+                a.connect()
+                net.run_threads(a)
+                b = Connection('localhost', 25566, username='other', allowed_versions={pv})
+                b.connect()
+                net.run_threads(b)
+                for c, kid in ((a, 1001), (b, 1002), (a, 1003)):
+                    k = sb.play.KeepAlivePacket()
+                    k.keep_alive_id = kid
+                    c.write_packet(k, force=True)
+            finally:
+                net.uninstall()
+            chk.count('two-connections', [pv, thr_a, thr_b], True)
+            what = None
+            for name, srv, thr, want in (('A', net.servers[0], thr_a, [9, 1001, 1003]), ('B', net.servers[1], thr_b, [9, 1002])):
+                try:
+                    fr = proto.parse_frames(b''.join(srv.sends), thr_at=2 if thr is not None else None)
+                    got = [a_[1] for a_ in decode_answers(ids, fr[2:])]
+                except Exception as e:
+                    got = 'unparseable in the framing its server announced (%s)' % exn_name(e)
+                if got != want:
+                    what = 'connection %s (threshold %s) wrote keep-alives %s; expected %s' % (name, thr, got, want)
+                    break
+            if what:
+                chk.violation('two-connections', 'two-connections:%d:%s:%s' % (pv, thr_a, thr_b), {'case': {'proto': pv, 'threshold_a': thr_a, 'threshold_b': thr_b}, 'observed': what},
+                              'protocol %d, two live connections: %s' % (pv, what))
 
 
 def shutdown_fault(chk):
